@@ -165,12 +165,12 @@ type runner struct {
 	// narrowed behaviour
 	replayInput any
 	cur         *only
-	in   input
-	out  *vh.Result
-	b    []step
-	ns   bool
-	be   string
-	seed int64
+	in          input
+	out         *vh.Result
+	b           []step
+	ns          bool
+	be          string
+	seed        int64
 }
 
 func (r *runner) newWorld() *world {
